@@ -50,7 +50,8 @@ def genCase : G (List String) := do
     let plen ← below 48
     let p ← bytesOf plen
     let d := Spec.V5.encode h rs ++ p
-    pure (["call v5 " ++ hexOf d] ++ expectOk ⟨5, h, rs.take (min c k)⟩)
+    -- … also into a packet value that is reused from call to call
+    pure (["call v5 " ++ hexOf d] ++ expectOk ⟨5, h, rs.take (min c k)⟩ ++ ["call v5r " ++ hexOf d] ++ expectOk ⟨5, h, rs.take (min c k)⟩)
 
 def gen (n : Nat) : G (List String) := do
   let mut out : List String := ["reset", "cfg c0 none", "pipe nf netflow c0", "pipe auto flow c0"]
